@@ -94,6 +94,22 @@ pub fn build_plan(property: &str, tier: &str, seed: u64, ctx: &Arc<ExecCtx>) -> 
             plan.rule = "directed: every preference name (prefs.yaml + API defaults + two unknown names) x 12 value classes interleaved with set_mathml; API-set values across touch / rewrite / edit of the system and user prefs.yaml (with and without a user configuration directory) and across set_rules_dir; Language/LanguageAuto flows; rejected-then-accepted sequences. Plus seeded random histories of set_preference/get_preference over all names x value classes interleaved with set_mathml, getters, navigation and (35% of runs) preference-file events. After every step the full preference snapshot is compared with the reference model (read-back normalisations, only documented derivations may change), rejected sets must leave all preferences and all outputs unchanged, unknown names and wrong-kind values must be rejected, braille-/speech-/navigation-only preferences must leave the other outputs byte-identical. non-trivial = at least one set was accepted and one rejected; distinct = distinct trace hashes".into();
             plan.required_probes = vec!["read_back_ok", "set_rejected", "frame_held", "rejected_set_left_outputs", "persisted_across_set_mathml", "prefs_file_event"].into_iter().map(String::from).collect();
         }
+        "C09" => {
+            for t in props::c09::directed() {
+                plan.units.push(Unit::Fixed(Box::new(t)));
+            }
+            seeded(&mut plan, "c09-random", if quick { 500 } else { 50_000 }, 9);
+            plan.rule = "directed: MathCAT's own output fed back in the same simulated millisecond with a repeating random part (prefix collision), tokens with MathCAT ids re-wrapped, duplicate author ids, bookmarks (SSML, SAPI5) and routing at five cells over every id-bearing expression; plus seeded random histories (expressions with no/some/all/duplicate author ids and fed-back output, navigation commands, key presses, set_navigation_node, speech with bookmarks, routing, across valid and failed changes of expression) under clock faults (stalled clock, same millisecond, clock near 36^3 ms, 2001) and repeated id-prefix randomness. Invariants after every step: every element has an id, ids distinct, navigation id / bookmark marks / routed ids are ids of the MathML returned by the last successful set_mathml. non-trivial = at least one handed-out id was checked; distinct = distinct trace hashes".into();
+            plan.required_probes = vec!["ids_unique", "handed_out_id_checked", "bookmarks_seen", "routing_id_checked", "own_output_fed_back"].into_iter().map(String::from).collect();
+        }
+        "C20" => {
+            for t in props::c20::directed(!quick) {
+                plan.units.push(Unit::Fixed(Box::new(t)));
+            }
+            seeded(&mut plan, "c20-random", if quick { 300 } else { 30_000 }, 20);
+            plan.rule = "directed: for 7 braille codes x 4 highlight styles, get_braille(id) for the first 24 ids and a non-id, get_navigation_node_from_braille_position(k) for k in 0..40, len, len+1, and get_braille_position / get_braille(nav id) along a navigation walk; read errors injected at the 1st-3rd read inside routing with the user's highlight style Off; plus seeded random histories mixing navigation commands, changes of expression/code/style with the three queries (25% of runs with injected transient read errors under CheckRuleFiles=All). Oracle: the full preference snapshot, navigation position, plain braille and speech are identical before and after each query (also a failed one); fault-free: queries succeed for ids and cells of the current expression, start <= end <= length, returned ids belong to the expression; with Off or a foreign id the braille equals the plain get_braille of the empty id. non-trivial = at least one query checked; distinct = distinct trace hashes".into();
+            plan.required_probes = vec!["query_pure", "failed_query_pure", "position_in_range", "routing_ok", "unhighlighted_equal", "highlight_ok"].into_iter().map(String::from).collect();
+        }
         "C11" => {
             for t in props::c11::directed() {
                 plan.units.push(Unit::Fixed(Box::new(t)));
@@ -113,6 +129,8 @@ pub fn unit_trace(plan: &Plan, i: usize, ctx: &Arc<ExecCtx>) -> Trace {
         Unit::Seeded { gen, seed } => match gen.as_str() {
             "c14-random" => props::c14::random_trace(*seed, ctx, &plan.c14_reachable),
             "c11-random" => props::c11::random_trace(*seed),
+            "c09-random" => props::c09::random_trace(*seed),
+            "c20-random" => props::c20::random_trace(*seed),
             "c12-random" => props::c12::random_trace(*seed, &props::common::pref_names(&ctx.base)),
             "c08-random" => props::c08::random_trace(*seed, &props::common::pref_names(&ctx.base), plan.c14_reachable.get("en").map(|v| v.as_slice()).unwrap_or(&[])),
             _ => Trace::new(&plan.property, "none"),
@@ -133,6 +151,8 @@ pub fn nontrivial(property: &str, out: &RunOutput) -> bool {
     match property {
         "C14" => out.stats.probes.get("call_consumed_fault").copied().unwrap_or(0) > 0 || out.stats.faults_consumed.values().sum::<u64>() > 0,
         "C08" => out.stats.api_err > 0,
+        "C09" => out.stats.probes.get("handed_out_id_checked").copied().unwrap_or(0) > 0,
+        "C20" => out.stats.probes.get("query_pure").copied().unwrap_or(0) > 0,
         "C12" => out.stats.probes.get("read_back_ok").copied().unwrap_or(0) > 0 && out.stats.probes.get("set_rejected").copied().unwrap_or(0) > 0,
         "C11" => out.stats.probes.get("position_changed").copied().unwrap_or(0) > 0,
         _ => out.stats.api_calls > 3,
